@@ -92,7 +92,9 @@ RULE = ("(a) histories of 1-12 requests on ONE loopback connection handled by th
         "response called directly on random version/status/headers/body against print_response, byte for byte. distinct_nontrivial counts "
         "distinct model outputs")
 ASSUMPTIONS = [
-    "theorems: what handle_cache returns satisfies the http crate's invariants (status 100..999, lower-case token names, values without "
+    "theorems are about any application (handle_cache and below) that keeps a state invariant under which its replies are reply_ok; "
+    "for the fixture host this is checked per generated history by the executable c8_hyps, whose soundness is proved "
+    "(checked_history_is_instance; the count is in coverage.histories_that_are_instances_of_the_connection_theorem). reply_ok: what handle_cache returns satisfies the http crate's invariants (status 100..999, lower-case token names, values without "
     "CR/LF, no transfer-encoding, not HTTP/0.9), a 1xx/204/304 reply has an empty body (bodyless_status_with_body_refuted shows kvarn sends "
     "a handler's 204 body), the range comes from sanitize_request (start < end); Package extensions leave version, status and "
     "content-length alone and add no transfer-encoding; Post extensions and streaming futures (with_future: WebSocket, SSE) write nothing "
